@@ -3,11 +3,19 @@
 Oracles: envelope predicates on every case (k, distinct, owner scope, threshold, tier pools, score agreement,
 documented final order recomputed from the reported cosine), exact differential against the float64 reference on
 well-separated cases, completeness when fewer than k are returned, rerank layers = pure permutation (metamorphic:
-same case with hybrid/quality off), residual nudges (existing node, label occurs in a used hit, caps).
+same case with hybrid/quality off), residual nudges (existing node, label occurs in a used hit, caps), result
+metrics (k_returned, k_used, k_residual, sim_stats, score_stats, owner_scope, caps) consistent with the result.
+
+Paths: sequential tier walk, sharded (parallel) walk, embed-store reader (perf.t2.reader.partitions).
 """
 from __future__ import annotations
 
 import copy
+import datetime as _dt
+import json
+import os
+import shutil
+import tempfile
 from types import SimpleNamespace
 
 from hypothesis import strategies as st
@@ -17,19 +25,28 @@ from harness import world
 from harness.models import t2 as ref
 
 LEVEL = "exploration"
-RULE = ("Hypothesis-generated memories (0-12 episodes; owners A/B/world/''; timestamps on both sides of the recency "
-        "window incl. the boundary second; clusters; importance in and out of [0,1]; bag-of-words / explicit / zero / "
-        "missing vectors, duplicates), queries from the same vocabulary, validated t2 configs (k, threshold, tiers in "
-        "any subset/order, recent days, top-m, ranking weights, owner scope x agent, hybrid/quality/MMR), GEL edge "
-        "sets, graphs for residual labels, slice cap t2_k, residual cap. Non-trivial = (>=2 owners present and, under "
-        "agent/world scope, a foreign episode would have ranked in the top-k) OR k truncates the eligible set OR a "
-        "rerank layer actually reordered. Distinct = digest of the whole case.")
+RULE = ("Hypothesis-generated memories (0-12 episodes, 1 in 20 cases 70-140 episodes with k up to 200; owners A/B/a/world/''/absent; timestamps on both sides of the "
+        "recency window incl. the boundary second, far past/future, spelled Z / +00:00 / non-UTC offset / zone-less / "
+        "fractional / date-only; clusters (str/int/empty ids); importance in and out of [0,1], numeric strings; "
+        "bag-of-words / explicit / signed / real / zero / missing vectors stored as float32 / float64 / lists, duplicated "
+        "content, the same episode stored twice), "
+        "ctx.now at several instants and spellings, queries from the same vocabulary, validated t2 configs (k, "
+        "threshold, tiers in any subset/order incl. duplicates/empty/unknown, recent days 0..overflowing, top-m, "
+        "ranking weights, owner scope spellings x agent incl. ''/case variants, backend label, reader mode, "
+        "hybrid/quality/normalizer/aliasing/lexical/MMR leaves), perf metrics gate, GEL edge sets, graphs for residual "
+        "labels, slice cap t2_k, residual cap; sequential, sharded and embed-store reader paths. Non-trivial = (>=2 "
+        "owners present and, under agent/world scope, a foreign episode would have ranked in the top-k) OR k "
+        "truncates the eligible set OR a rerank layer actually reordered. Distinct = digest of the whole case.")
 ASSUMPTIONS = ["implementation scores in float32, reference in float64: 1e-6 band at thresholds / ties; exact "
                "differential only on well-separated cases (no score inside a band); reported scores compared at 1e-5",
                "episodes without ts: membership in the exact tier is not asserted (code falls back to the wall clock)",
-               "T2 stage cache disabled here (cache transparency is C05); in-memory backend"]
+               "T2 stage cache disabled here (cache transparency is C05); in-memory backend",
+               "zone-less timestamps are read in the host zone, which is UTC under ./vcheck (TZ=UTC)",
+               "embed-store reader path: tier rules do not apply (tier_sequence=['embed_store']); owner scope, threshold, "
+               "k, top-k by (cosine, id), final order, metrics and residual clauses do"]
 
 SCORE_TOL = 1e-5
+STAT_TOL = 1e-7
 BAND = ref.BAND
 TIERS = ["exact_semantic", "cluster_semantic", "archive"]
 
@@ -40,85 +57,338 @@ _TIER_SETS = st.one_of(
     st.just(None),
     st.lists(st.sampled_from(TIERS), min_size=1, max_size=3, unique=True),
     st.lists(st.sampled_from(TIERS + ["bogus_tier"]), min_size=1, max_size=4, unique=True),
+    st.lists(st.sampled_from(TIERS), min_size=0, max_size=4),  # duplicates / empty list
+    # a tier on its own (or ahead of a narrower one): its rule is not masked by a later catch-all tier
+    st.sampled_from([["cluster_semantic"], ["cluster_semantic"], ["exact_semantic"], ["cluster_semantic", "exact_semantic"]]),
 )
 _W = st.sampled_from([0.0, 0.05, 0.2, 0.25, 0.5, 0.75, 1.0])
+
+EP_IDS = world.EP_IDS + ["10", "9"]
+OWNERS = ["A", "A", "B", "B", "world", "world", "", "a", None]  # None = key absent
+AGENTS = ["A", "A", "A", "B", "B", "world", "C", "", "a"]
+NOWS = [world.NOW_ISO, world.NOW_ISO, world.NOW_ISO, "2025-06-15T00:00:00Z", "2025-01-01T00:00:30Z", "2024-03-01T06:00:00Z"]
+_AGES = world._AGES_S + world._AGES_SUBDAY + [4000 * 86400, -400 * 86400, 365 * 86400, 366 * 86400]
+_SPELL = ["z", "z", "z", "utc", "utc", "offset", "offset", "offset", "naive", "naive", "frac", "space", "date"]
+_OFFSETS = [600, -600, 330, -45, 840]
+_SIGNED = [-1.0, -0.5, 0.0, 0.0, 0.5, 1.0, 2.0]
 
 
 def _with_offset(ts: str, minutes: int) -> str:
     """The same instant as `ts`, spelled in the zone UTC+minutes (e.g. 2025-01-02T05:00:00+10:00)."""
-    import datetime as _dt
-
     t = _dt.datetime.fromisoformat(ts.replace("Z", "+00:00"))
     if t.tzinfo is None:
         t = t.replace(tzinfo=_dt.timezone.utc)
     return t.astimezone(_dt.timezone(_dt.timedelta(minutes=minutes))).isoformat()
 
 
+def _spell(draw, ts_z: str, kinds=_SPELL) -> str:
+    """One of the ISO-8601 spellings datetime.fromisoformat accepts. 'frac' and 'date' name a (slightly) different
+    instant; the reference parses the very same string, so that is just another timestamp."""
+    kind = draw(st.sampled_from(kinds))
+    if kind == "utc":
+        return ts_z.replace("Z", "+00:00")
+    if kind == "offset":
+        return _with_offset(ts_z, draw(st.sampled_from(_OFFSETS)))
+    if kind == "naive":
+        return ts_z.replace("Z", "")
+    if kind == "frac":
+        return ts_z.replace("Z", ".250000Z")
+    if kind == "space":
+        return ts_z.replace("T", " ")
+    if kind == "date":
+        return ts_z[:10]
+    return ts_z
+
+
+@st.composite
+def _episodes(draw, now_z: str, max_eps: int = 12, owners=None):
+    owners = owners or OWNERS
+    chosen = draw(st.one_of(st.lists(st.sampled_from(EP_IDS), min_size=0, max_size=max_eps, unique=True),
+                            st.lists(st.sampled_from(EP_IDS), min_size=4, max_size=max_eps, unique=True),
+                            st.lists(st.sampled_from(EP_IDS), min_size=7, max_size=max_eps, unique=True)))
+    enc = world.BowEncoder()
+    eps = []
+    for eid in chosen:
+        text = " ".join(draw(world._EP_WORDS))
+        if draw(st.sampled_from([False, False, False, True])):
+            text = text.upper()
+        kind = draw(st.sampled_from(["bow", "bow", "bow", "bow", "explicit", "signed", "signed", "real", "zero", "none"]))
+        if kind == "bow":
+            vec = enc.vec(text)
+        elif kind == "explicit":
+            vec = [float(draw(st.integers(0, 3))) for _ in world.VOCAB]
+        elif kind == "signed":
+            # dyadic components of both signs: exactly representable in float32, negative cosines reachable
+            vec = [draw(st.sampled_from(_SIGNED)) for _ in world.VOCAB]
+        elif kind == "real":
+            # generic direction (multiples of 1/64, exact in float32): cosines without structural ties
+            vec = [draw(st.integers(-64, 64)) / 64.0 for _ in world.VOCAB]
+        elif kind == "zero":
+            vec = [0.0] * len(world.VOCAB)
+        else:
+            vec = None
+        if eps and draw(st.sampled_from([False, False, False, True])):
+            # exact duplicate of an earlier episode's content: cosine ties, so recency / importance / id decide the order
+            twin = draw(st.sampled_from(eps))
+            text, vec = twin["text"], (None if twin["vec_full"] is None else list(twin["vec_full"]))
+        ep = {"id": eid, "text": text, "vec_full": vec}
+        owner = draw(st.sampled_from(owners))
+        if owner is not None:
+            ep["owner"] = owner
+        if not draw(st.sampled_from([False] * 29 + [True])):  # rare: a missing ts makes the exact tier's pool ambiguous
+            ep["ts"] = _spell(draw, world.iso_minus(now_z, draw(st.sampled_from(_AGES)), z=True))
+        aux = {}
+        if draw(st.booleans()):
+            aux["cluster_id"] = draw(st.sampled_from(["c1", "c1", "c2", "c2", 7, "", "", 0]))
+        if draw(st.booleans()):
+            aux["importance"] = draw(st.sampled_from([0.0, 0.25, 0.5, 1.0, 2.0, -1.0, 0.9, "0.75", 1]))
+        if aux or draw(st.booleans()):
+            ep["aux"] = aux
+        elif draw(st.sampled_from([False, False, True])):
+            ep["aux"] = None
+        eps.append(ep)
+    return eps
+
+
+def _big_memory(seed: int, now_z: str, owners):
+    """70-140 episodes built from one integer (sizes beyond every default: k_retrieval 10/64, t2_k 64, hybrid k_max 128).
+    Few distinct texts, so hundreds of hits and long exact ties; ids sort differently as strings and as numbers."""
+    import random
+
+    rnd = random.Random(seed)
+    enc = world.BowEncoder()
+    texts = [" ".join(rnd.choice(world.VOCAB[:5]) for _ in range(rnd.randint(1, 3))) for _ in range(6)]
+    eps = []
+    for j in rnd.sample(range(400), rnd.randint(70, 140)):
+        text = rnd.choice(texts)
+        ep = {"id": f"m{j}", "text": text, "vec_full": enc.vec(text),
+              "ts": world.iso_minus(now_z, rnd.choice(_AGES), z=True)}
+        owner = rnd.choice(owners)
+        if owner is not None:
+            ep["owner"] = owner
+        if rnd.random() < 0.5:
+            ep["aux"] = {"cluster_id": rnd.choice(["c1", "c2", "c3", "c4", "c5"]), "importance": rnd.choice([0.0, 0.5, 1.0])}
+        eps.append(ep)
+    return eps
+
+
 @st.composite
 def cases(draw):
-    eps = draw(world.episode_lists())
+    now_z = draw(st.sampled_from(NOWS))
+    scope = draw(st.sampled_from(["any", "any", "agent", "agent", "agent", "world", "AGENT", "World", "Any"]))
+    agent = draw(st.sampled_from(AGENTS))
+    own = ref.owner_of(scope, agent)
+    owners = OWNERS
+    if own is not None and draw(st.sampled_from([True, True, False])):
+        # the querying owner dominates (more episodes visible under the scoped query), foreign ones remain
+        others = [o for o in ["A", "B", "world", "", "a", None] if o != own]
+        owners = [own] * 4 + [draw(st.sampled_from(others)), draw(st.sampled_from(others))]
+    big = draw(st.sampled_from([False] * 19 + [True]))
+    if big and own is not None:
+        owners = [own] * 6 + [draw(st.sampled_from([o for o in ["A", "B", "world", ""] if o != own]))]
+    eps = _big_memory(draw(st.integers(0, 10 ** 6)), now_z, owners) if big else draw(_episodes(now_z, owners=owners))
+    ep_words = [w for e in eps for w in (e.get("text") or "").lower().split()] or world.VOCAB
     graphs = {}
-    for gid in draw(st.lists(st.sampled_from(["g1", "g2"]), max_size=2, unique=True)):
-        graphs[gid] = draw(world.graph_specs(max_nodes=5, max_edges=3))
+    for gid in draw(st.sampled_from([[], ["g1"], ["g1"], ["g2"], ["g1", "g2"], ["g1", "g2"], ["g2", "g1"]])):
+        spec = draw(world.graph_specs(max_nodes=5, max_edges=3))
+        for n in spec["nodes"]:
+            # labels that do occur in episode texts (any case): residual nudges have something to match
+            if draw(st.sampled_from([False, False, True])):
+                w = draw(st.sampled_from(ep_words))
+                n["label"] = draw(st.sampled_from([w, w.upper(), w.capitalize()]))
+        graphs[gid] = spec
     t2 = {"cache": {"enabled": False}}
-    t2["k_retrieval"] = draw(st.sampled_from([1, 2, 3, 5, 10, 64]))
-    t2["sim_threshold"] = draw(st.sampled_from([0.0, 0.0, 0.1, 0.3, 0.3, 0.45, 0.5, 0.6, -1.0, 1.0, 0.7071067811865476, -0.2]))
+    t2["k_retrieval"] = draw(st.sampled_from([10, 64, 64, 200, 200] if big else [1, 2, 3, 5, 5, 10, 10, 64]))
+    t2["sim_threshold"] = draw(st.sampled_from([0.0, 0.0, 0.1, 0.3, -1.0] if big else
+                                               [0.0, 0.0, 0.1, 0.3, 0.3, 0.45, 0.5, 0.6, -1.0, 1.0, 0.7071067811865476, -0.2]))
     tiers = draw(_TIER_SETS)
     if tiers is not None:
         t2["tiers"] = tiers
     if draw(st.booleans()):
-        t2["exact_recent_days"] = draw(st.sampled_from([0, 1, 7, 30, 365]))
+        t2["exact_recent_days"] = draw(st.sampled_from([0, 1, 1, 7, 7, 30, 30, 365, 800000, 10 ** 10]))
     if draw(st.booleans()):
-        t2["clusters_top_m"] = draw(st.sampled_from([0, 1, 2, 3, 10]))
+        t2["clusters_top_m"] = draw(st.sampled_from([0, 1, 1, 2, 2, 3, 10]))
     if draw(st.booleans()):
         t2["ranking"] = {"alpha_sim": draw(_W), "beta_recency": draw(_W), "gamma_importance": draw(_W)}
-    t2["owner_scope"] = draw(st.sampled_from(["any", "agent", "agent", "world", "AGENT"]))
+    t2["owner_scope"] = scope
     if draw(st.booleans()):
         t2["residual_cap_per_turn"] = draw(st.sampled_from([0, 1, 2, 32]))
-    layers = draw(st.sampled_from(["none", "none", "hybrid", "quality", "quality+mmr", "all"]))
+    if draw(st.sampled_from([False] * 9 + [True])):
+        t2["backend"] = "lancedb"  # only a label here: the index object comes with the state
+    if draw(st.sampled_from([False, False, False, True])):
+        t2["reader"] = {"mode": draw(st.sampled_from(["flat", "partition", "auto"]))}
+    layers = draw(st.sampled_from(["none", "none", "none", "hybrid", "hybrid", "quality", "quality", "quality+mmr", "quality+mmr",
+                                   "all", "all", "mmr-only"]))
+    alias = None
     if layers in ("hybrid", "all"):
         t2["hybrid"] = {"enabled": True, "anchor_top_m": draw(st.sampled_from([1, 2, 8])),
                         "walk_hops": draw(st.sampled_from([1, 2])), "edge_threshold": draw(st.sampled_from([0.0, 0.1, 0.5])),
-                        "lambda_graph": draw(st.sampled_from([0.25, 1.0])), "degree_norm": draw(st.sampled_from(["none", "invdeg"])),
-                        "max_bonus": draw(st.sampled_from([0.5, 0.0, 5.0])), "k_max": draw(st.sampled_from([1, 2, 3, 128]))}
-    if layers in ("quality", "quality+mmr", "all"):
-        q = {"enabled": True, "fusion": {"alpha_semantic": draw(st.sampled_from([0.0, 0.3, 0.6, 1.0]))}}
+                        "lambda_graph": draw(st.sampled_from([0.0, 0.25, 1.0, 1.0])), "degree_norm": draw(st.sampled_from(["none", "invdeg"])),
+                        "max_bonus": draw(st.sampled_from([0.5, 0.0, 5.0])), "k_max": draw(st.sampled_from([1, 2, 3, 128])),
+                        "damping": draw(st.sampled_from([0.0, 0.5, 1.0])), "use_graph": draw(st.sampled_from([True, True, True, False]))}
+    if layers in ("quality", "quality+mmr", "all", "mmr-only"):
+        q = {"enabled": layers != "mmr-only", "fusion": {"alpha_semantic": draw(st.sampled_from([0.0, 0.3, 0.6, 1.0]))}}
         if layers != "quality":
-            q["mmr"] = {"enabled": True, "lambda": draw(st.sampled_from([0.0, 0.5, 1.0])), "k": draw(st.sampled_from([1, 2, 10]))}
+            mmr = {"enabled": True, draw(st.sampled_from(["lambda", "lambda_relevance"])): draw(st.sampled_from([0.0, 0.5, 1.0]))}
+            kk = draw(st.sampled_from([None, 1, 2, 10]))
+            if kk is not None:
+                mmr[draw(st.sampled_from(["k", "k_final"]))] = kk
+            q["mmr"] = mmr
+        nz = draw(st.sampled_from([None, None, {"enabled": False}, {"enabled": True, "stemmer": "porter-lite", "min_token_len": 2}]))
+        if nz is not None:
+            q["normalizer"] = nz
+        lx = draw(st.sampled_from([None, None, {"enabled": False}, {"bm25": {"k1": 0.0, "b": 1.0}}, {"bm25": {"k1": 2.0, "b": 0.0, "doclen_floor": 3}}]))
+        if lx is not None:
+            q["lexical"] = lx
+        if draw(st.sampled_from([False, False, True])):
+            # token aliases (rewrite, expansion, degenerate): lexical signal only
+            alias = draw(st.sampled_from([{"apple": "pear"}, {"kiwi": "fig plum", "app": ""}, {"pear": "apple", "apple": "pear"}]))
         t2["quality"] = q
-    agent = draw(st.sampled_from(["A", "B", "C", "world"]))
-    # the same instants written with an explicit non-UTC offset (ISO-8601 allows it): windows and recency must not move
-    for e in eps:
-        if e.get("ts") and draw(st.sampled_from([False, False, True])):
-            e["ts"] = _with_offset(e["ts"], draw(st.sampled_from([600, -600, 330, -45, 840])))
-    ep_words = [w for e in eps for w in (e.get("text") or "").lower().split()] or world.VOCAB
-    words = draw(st.lists(st.sampled_from(ep_words + world.VOCAB[:3]), min_size=0, max_size=4))
+    vec_words = [w for e in eps if e.get("vec_full") is not None and any(e["vec_full"]) for w in (e.get("text") or "").lower().split()]
+    qpool = vec_words * 2 + ep_words + world.VOCAB[:3]
+    words = draw(st.one_of(st.lists(st.sampled_from(qpool), min_size=1, max_size=4), st.lists(st.sampled_from(qpool), min_size=0, max_size=4)))
     text = " ".join(words)
+    if draw(st.sampled_from([False] * 5 + [True])):
+        text = "  " + text.upper() + " "
+    if eps and not big and draw(st.sampled_from([False] * 5 + [True])):
+        # an episode stored more than once (same id and content, e.g. a reflection entry written again for a re-run
+        # turn): retrieval still returns distinct episodes and the copies do not use up k slots. Mostly copies of
+        # episodes the query can hit, so they sit above the k cut.
+        qv0 = world.BowEncoder().vec(text)
+        hot = [e for e in eps if e.get("vec_full") is not None and sum(x * y for x, y in zip(qv0, e["vec_full"])) > 0]
+        for _ in range(draw(st.integers(1, 3))):
+            src = draw(st.sampled_from(hot * 3 + eps))
+            eps.insert(draw(st.integers(0, len(eps))), copy.deepcopy(src))
+        if draw(st.booleans()):
+            t2["k_retrieval"] = draw(st.sampled_from([2, 2, 3]))  # the copies compete for the k slots
     node_ids = sorted({n["id"] for s in graphs.values() for n in s["nodes"]})
     t1_ids = draw(st.lists(st.sampled_from(node_ids), max_size=3, unique=True)) if node_ids else []
     slice_k = draw(st.sampled_from([None, None, 0, 1, 2, 100]))
-    gel = draw(world.gel_graphs([e["id"] for e in eps])) if layers in ("hybrid", "all") else None
-    return {"eps": eps, "graphs": graphs, "t2": t2, "agent": agent, "text": text, "t1_ids": t1_ids, "slice_k": slice_k,
-            "gel": gel, "layers": layers, "workers": draw(st.sampled_from([None, None, 2, 3, 4, 8]))}
+    gel = None
+    if layers in ("hybrid", "all"):
+        # edges mostly between episodes the query can hit (positive dot product), else the rerank never fires
+        qv = world.BowEncoder().vec(text)
+        likely = [e["id"] for e in eps if e.get("vec_full") is not None and sum(x * y for x, y in zip(qv, e["vec_full"])) > 0]
+        likely = sorted(set(likely), key=likely.index)[:6]
+        gel = draw(world.gel_graphs([e["id"] for e in eps] + (["ghost"] if len(eps) >= 2 else [])))
+        for i, a in enumerate(likely):
+            for b in likely[i + 1:]:
+                if draw(st.booleans()):
+                    s_, d_ = (a, b) if a <= b else (b, a)
+                    w = draw(st.sampled_from([0.05, 0.2, 0.5, 0.9, 1.0, -0.5]))
+                    gel["edges"][f"{s_}\u2192{d_}"] = {"id": f"{s_}\u2192{d_}", "src": s_, "dst": d_, "weight": w, "rel": "coact", "attrs": {}}
+    case = {"eps": eps, "graphs": graphs, "t2": t2, "agent": agent, "text": text, "t1_ids": t1_ids, "slice_k": slice_k,
+            "gel": gel, "layers": layers, "workers": draw(st.sampled_from([None, None, 2, 3, 4, 8])),
+            "now": _spell(draw, now_z, ["z", "z", "z", "utc", "offset", "naive"]),
+            "vec_store": draw(st.sampled_from(["f32", "f32", "list", "f64"])),
+            "gate": draw(st.sampled_from([False] * 5 + [True]))}
+    if alias is not None:
+        case["alias"] = alias
+    if draw(st.sampled_from([False] * 9 + [True])):
+        # retrieval straight from an on-disk embed store holding the vectors of the whole index
+        case["reader"] = {"shards": draw(st.sampled_from([0, 1, 2, 3])), "norms": draw(st.booleans()),
+                          "layout": draw(st.sampled_from([None, "owner_quarter"])), "batch": draw(st.sampled_from([None, 1, 2, 8192]))}
+        case["workers"] = None
+    return case
 
 
 # ---------------------------------------------------------------- running the real stage
 
-def run_t2(case, t2_override=None):
+def _build_index(case):
+    """InMemoryIndex over the case's episodes; vectors stored as float32 arrays (default), float64 arrays or lists."""
+    import numpy as np
+    from clematis.memory.index import InMemoryIndex
+
+    kind = case.get("vec_store") or "f32"
+    idx = InMemoryIndex()
+    for e in case["eps"]:
+        d = copy.deepcopy(e)
+        if d.get("vec_full") is not None:
+            if kind == "f32":
+                d["vec_full"] = np.asarray(d["vec_full"], dtype=np.float32)
+            elif kind == "f64":
+                d["vec_full"] = np.asarray(d["vec_full"], dtype=np.float64)
+        idx.add(d)
+    return idx
+
+
+def _reader_items(case):
+    """[(id, vec)] written to the embed store: every episode that has a vector, in index order."""
+    out, seen = [], set()
+    for e in case["eps"]:
+        if e.get("vec_full") is not None and str(e["id"]) not in seen:
+            seen.add(str(e["id"]))
+            out.append((str(e["id"]), list(e["vec_full"])))
+    return out
+
+
+def _reader_on(case):
+    """The embed-store path engages only when a store exists; an empty memory has none (the tiered path runs)."""
+    return case.get("reader") is not None and bool(_reader_items(case))
+
+
+def _write_store(case, root):
+    import numpy as np
+    from clematis.engine.util.embed_store import write_shard
+
+    rd = case["reader"]
+    items = _reader_items(case)
+    n = int(rd.get("shards") or 0)
+    layout = rd.get("layout")
+    if n <= 0 or not items:
+        groups = [("", items)]
+    else:
+        groups = [(f"s{j}", items[j::n]) for j in range(n) if items[j::n]]
+    for name, grp in groups:
+        if layout == "owner_quarter":
+            d = os.path.join(root, "ownerX", "2025Q2", name or "s0")
+        else:
+            d = os.path.join(root, name) if name else root
+        embeds = np.asarray([v for _, v in grp], dtype=np.float32).reshape(len(grp), len(world.VOCAB))
+        write_shard(d, [i for i, _ in grp], embeds, dtype="fp32", precompute_norms=bool(rd.get("norms")))
+
+
+def run_t2(case, t2_override=None, tmp=None):
     from clematis.engine.stages.t2.core import t2_semantic
 
     world.reset_engine_globals()
     t2 = copy.deepcopy(case["t2"] if t2_override is None else t2_override)
     over = {"t2": t2}
+    perf = {}
     if case.get("workers"):
         # the sharded (parallel) retrieval path must honour exactly the same contract as the sequential walk
-        over["perf"] = {"parallel": {"enabled": True, "t2": True, "max_workers": int(case["workers"])}}
+        perf["parallel"] = {"enabled": True, "t2": True, "max_workers": int(case["workers"])}
+    if case.get("gate"):
+        perf["enabled"] = True
+        perf["metrics"] = {"report_memory": True}
+    if case.get("alias") is not None and "quality" in t2:
+        ap = os.path.join(tmp, "aliases.json")
+        if not os.path.exists(ap):
+            with open(ap, "w", encoding="utf-8") as f:
+                json.dump(case["alias"], f)
+        t2["quality"]["aliasing"] = {"map_path": ap}
+    if _reader_on(case):
+        root = os.path.join(tmp, "store")
+        if not os.path.isdir(root):
+            os.makedirs(root)
+            _write_store(case, root)
+        perf["enabled"] = True
+        part = {"enabled": True, "path": root}
+        if case["reader"].get("layout"):
+            part["layout"] = case["reader"]["layout"]
+        perf["t2"] = {"reader": {"partitions": part}, "precompute_norms": bool(case["reader"].get("norms"))}
+        t2["embed_root"] = root
+        if case["reader"].get("batch"):
+            t2["reader_batch"] = int(case["reader"]["batch"])
+    if perf:
+        over["perf"] = perf
     cfg = world.validated_cfg(over)
-    ctx = world.make_ctx(cfg, agent=case["agent"], now=world.NOW_ISO, now_ms=world.NOW_MS, enc=world.BowEncoder())
+    now = case.get("now") or world.NOW_ISO
+    ctx = world.make_ctx(cfg, agent=case["agent"], now=now, now_ms=world.NOW_MS, enc=world.BowEncoder())
     if case["slice_k"] is not None:
         ctx.slice_budgets = {"t2_k": case["slice_k"]}
     store = world.build_store(case["graphs"])
-    idx = world.build_index(case["eps"])
+    idx = _build_index(case)
     state = {"store": store, "active_graphs": list(case["graphs"].keys()), "mem_index": idx}
     if case.get("gel") is not None:
         state["graph"] = copy.deepcopy(case["gel"])
@@ -152,13 +422,46 @@ def ref_query_text(case):
     return q
 
 
+class RefX(ref.Ref):
+    """Reference + the documented behaviour for a recency window reaching past the earliest representable date
+    (repo fix c848002: nothing is too old, instead of OverflowError)."""
+
+    def rank(self, pool, room=None):
+        # an id stored more than once (exact copies here) ranks once: one entry per id before the k cut
+        seen, uniq = set(), []
+        for e in pool:
+            if str(e["id"]) not in seen:
+                seen.add(str(e["id"]))
+                uniq.append(e)
+        return super().rank(uniq, room)
+
+    def pool(self, tier):
+        if tier == "exact_semantic" and self.days > 0 and self.vis:
+            try:
+                self.now - _dt.timedelta(days=self.days)
+            except OverflowError:
+                return list(self.vis)
+        return super().pool(tier)
+
+
 def check_case(case, rec=None):
+    tmp = tempfile.mkdtemp(prefix="c11_") if (case.get("reader") is not None or case.get("alias") is not None) else None
     try:
-        res, cfg, state = run_t2(case)
+        _check_case(case, rec, tmp)
+    finally:
+        if tmp is not None:
+            shutil.rmtree(tmp, ignore_errors=True)
+
+
+def _check_case(case, rec, tmp):
+    try:
+        res, cfg, state = run_t2(case, tmp=tmp)
     except Violation:
         raise
     except Exception as e:
         raise Violation(f"t2_semantic raised {type(e).__name__}: {e}", case, "raises")
+    now_iso = case.get("now") or world.NOW_ISO
+    reader = _reader_on(case)
     t2cfg = dict(cfg["t2"])
     k = int(t2cfg["k_retrieval"])
     thr = float(t2cfg["sim_threshold"])
@@ -167,6 +470,9 @@ def check_case(case, rec=None):
     hits = list(res.retrieved)
     ids = [str(h.id) for h in hits]
     m = res.metrics
+    # (the embed-store reader path honours owner scope and threshold since repo fix b28b23d: same clauses on every path)
+    if reader and m.get("tier_sequence") != ["embed_store"]:
+        raise Violation(f"embed-store reader configured and present but tier_sequence={m.get('tier_sequence')}", case, "reader-not-engaged")
 
     # ---- envelope
     if len(hits) > k:
@@ -181,67 +487,112 @@ def check_case(case, rec=None):
             raise Violation(f"returned episode {h.id!r} does not exist", case, "ghost-episode")
         if owner is not None and e.get("owner") != owner:
             raise Violation(f"episode {h.id} owned by {e.get('owner')!r} returned under scope "
-                            f"{t2cfg.get('owner_scope')!r} for agent {case['agent']!r}", case, "owner-scope")
+                            f"{t2cfg.get('owner_scope')!r} for agent {case['agent']!r}" + (" (embed-store reader path)" if reader else ""),
+                            case, "owner-scope-reader" if reader else "owner-scope")
         if e.get("vec_full") is None:
             raise Violation(f"episode {h.id} without a vector returned", case, "no-vector")
+        if (h.text or "") != str(e.get("text", "")):
+            raise Violation(f"hit {h.id} carries text {h.text!r}, the episode's text is {e.get('text')!r}", case, "hit-text")
 
     q_text = ref_query_text(case)
     qvec = world.BowEncoder().vec(q_text)
-    R = ref.Ref(case["eps"], qvec, t2cfg, world.NOW_ISO, owner)
+    # scores: over every episode for the reader path (its candidates are not owner-filtered before scoring)
+    Rall = RefX(case["eps"], qvec, t2cfg, now_iso, None) if reader else None
+    R = RefX(case["eps"], qvec, t2cfg, now_iso, owner)
     for h in hits:
-        s = R.score(by_id[str(h.id)])
+        s = (Rall or R).score(by_id[str(h.id)])
         if s < thr - BAND:
-            raise Violation(f"episode {h.id} has cosine {s!r} below threshold {thr!r}", case, "below-threshold")
+            raise Violation(f"episode {h.id} has cosine {s!r} below threshold {thr!r}" + (" (embed-store reader path)" if reader else ""),
+                            case, "below-threshold-reader" if reader else "below-threshold")
         if abs(float(h.score) - s) > SCORE_TOL:
             raise Violation(f"episode {h.id}: reported score {h.score!r}, cosine is {s!r}", case, "score-mismatch")
 
-    # tier pools (union over configured tiers)
-    known_tiers = [t for t in R.tiers if t in TIERS]
-    pools = {}
-    for t in known_tiers:
-        p = R.pool(t)
-        pools[t] = {str(e["id"]) for e in (p or [])}
-    allowed = set().union(*pools.values()) if pools else set()
-    cluster_amb = any("cluster" in a for a in R.ambiguous)
-    for h in hits:
-        if str(h.id) not in allowed and not cluster_amb:
-            raise Violation(f"episode {h.id} is in no configured tier's candidate set (tiers {R.tiers}, recency window "
-                            f"{R.days}d, top-m {R.topm})", case, "tier-rule")
-
-    R2 = ref.Ref(case["eps"], qvec, t2cfg, world.NOW_ISO, owner)
-    want = R2.result()
-    well_separated = not R2.ambiguous
     layers_on = case["layers"] != "none"
-
-    # ---- reference: base (no rerank layers) result
+    # ---- base (no rerank layers) result
     if layers_on:
         base_t2 = copy.deepcopy(case["t2"])
         base_t2.pop("hybrid", None)
         base_t2.pop("quality", None)
-        base_res = run_t2(case, t2_override=base_t2)[0]
+        base_res = run_t2(case, t2_override=base_t2, tmp=tmp)[0]
         base_hits = list(base_res.retrieved)
     else:
         base_res, base_hits = res, hits
     base_ids = [str(h.id) for h in base_hits]
 
-    if well_separated:
-        want_ids = [i for i, _, _ in want]
-        if base_ids != want_ids:
-            raise Violation(f"retrieved {base_ids}, documented retrieval gives {want_ids} (query {q_text!r}, owner {owner!r})",
-                            case, "ref-ids")
+    cluster_amb = False
+    well_separated = False
+    pools = {}
+    if reader:
+        # candidates = the store entries visible to the owner and above the threshold, top-k by (-cos, id)
+        cand = [e for e in case["eps"] if e.get("vec_full") is not None and (owner is None or e.get("owner") == owner)]
+        sc = {str(e["id"]): Rall.score(e) for e in cand}
+        sure = [i for i in sc if sc[i] >= thr + BAND]
+        if len(base_ids) < k:
+            missing = sorted(i for i in sure if i not in base_ids)
+            if missing:
+                raise Violation(f"embed-store candidates {missing} missing although only {len(base_ids)} < k={k} returned", case, "incomplete-reader")
+        got = [i for i in base_ids if i in sc]
+        for o in sure:
+            if o in base_ids:
+                continue
+            for i in got:
+                same_vec = tuple(by_id[o]["vec_full"]) == tuple(by_id[i]["vec_full"])
+                if sc[o] > sc[i] + BAND or (same_vec and o < i):
+                    raise Violation(f"embed-store candidate {o} (cos {sc[o]!r}) omitted but {i} (cos {sc[i]!r}) returned", case, "topk-reader")
     else:
-        # completeness when fewer than k returned: every strictly eligible episode must be present
-        if len(base_ids) < k and not cluster_amb:
-            for t, pool in pools.items():
-                for eid in pool:
-                    e = by_id[eid]
-                    if e.get("vec_full") is None:
+        # tier pools (union over configured tiers)
+        known_tiers = [t for t in R.tiers if t in TIERS]
+        for t in known_tiers:
+            p = R.pool(t)
+            pools[t] = {str(e["id"]) for e in (p or [])}
+        allowed = set().union(*pools.values()) if pools else set()
+        cluster_amb = any("cluster" in a for a in R.ambiguous)
+        for h in hits:
+            if str(h.id) not in allowed and not cluster_amb:
+                raise Violation(f"episode {h.id} is in no configured tier's candidate set (tiers {R.tiers}, recency window "
+                                f"{R.days}d, top-m {R.topm})", case, "tier-rule")
+
+        R2 = RefX(case["eps"], qvec, t2cfg, now_iso, owner)
+        want = R2.result()
+        well_separated = not R2.ambiguous
+        if well_separated:
+            want_ids = [i for i, _, _ in want]
+            if base_ids != want_ids:
+                raise Violation(f"retrieved {base_ids}, documented retrieval gives {want_ids} (query {q_text!r}, owner {owner!r})",
+                                case, "ref-ids")
+        else:
+            # completeness when fewer than k returned: every strictly eligible episode must be present
+            if len(base_ids) < k and not cluster_amb:
+                for t, pool in pools.items():
+                    for eid in pool:
+                        e = by_id[eid]
+                        if e.get("vec_full") is None:
+                            continue
+                        if R.score(e) >= thr + BAND and eid not in base_ids and e.get("ts"):
+                            raise Violation(f"eligible episode {eid} (cos {R.score(e)!r} >= {thr!r}, tier {t}) missing although only "
+                                            f"{len(base_ids)} < k={k} returned", case, "incomplete")
+        # the k cut of the first tier, also when bands make the exact differential unavailable: the walk fills from the
+        # first tier's ranking first, so a strictly eligible member of that tier is only left out when k hits of that
+        # tier rank at least as high (cosine desc, id asc; identical vectors tie exactly)
+        if not well_separated and len(base_ids) >= k:
+            first = next((t for t in R.tiers if t in TIERS), None)
+            unsure = (first == "cluster_semantic" and cluster_amb) or \
+                     (first == "exact_semantic" and any("no ts" in a for a in R.ambiguous))
+            if first is not None and not unsure:
+                for o in sorted(pools[first]):
+                    eo = by_id[o]
+                    if o in base_ids or eo.get("vec_full") is None or R.score(eo) < thr + BAND:
                         continue
-                    if R.score(e) >= thr + BAND and eid not in base_ids and e.get("ts"):
-                        raise Violation(f"eligible episode {eid} (cos {R.score(e)!r} >= {thr!r}, tier {t}) missing although only "
-                                        f"{len(base_ids)} < k={k} returned", case, "incomplete")
+                    for i in base_ids:
+                        ei = by_id.get(i)
+                        if ei is None or ei.get("vec_full") is None or R.score(ei) is None:
+                            continue  # reported by the envelope clauses
+                        same_vec = tuple(eo["vec_full"]) == tuple(ei["vec_full"])
+                        if R.score(eo) > R.score(ei) + BAND or (same_vec and o < i) or i not in pools[first]:
+                            raise Violation(f"episode {o} (cos {R.score(eo)!r}, first tier {first}) left out at the k={k} cut although "
+                                            f"{i} (cos {R.score(ei)!r}) was returned", case, "topk-first-tier")
     # documented final order, recomputed from the reported cosine (same documented formula)
-    comb = [R.combined(by_id[str(h.id)], float(h.score)) for h in base_hits]
+    comb = [R.combined(by_id.get(str(h.id), {}), float(h.score)) for h in base_hits]
     for i in range(len(base_hits) - 1):
         a, b = comb[i], comb[i + 1]
         if a < b - 1e-12:
@@ -258,12 +609,29 @@ def check_case(case, rec=None):
             raise Violation("rerank layers changed k_returned", case, "rerank-k")
         reordered = ids != base_ids
 
+    # ---- result metrics describe the result (same figures the t2 log record carries)
+    for res_x, hits_x, tag in ((res, hits, ""), (base_res, base_hits, " (layers off)")) if layers_on else ((res, hits, ""),):
+        mx = res_x.metrics
+        cos_x = [float(h.score) for h in hits_x]
+        comb_x = [R.combined(by_id.get(str(h.id), {}), float(h.score)) for h in hits_x]
+        for name, vals in (("sim_stats", cos_x), ("score_stats", comb_x)):
+            want_st = {"mean": (sum(vals) / len(vals)) if vals else 0.0, "max": max(vals) if vals else 0.0}
+            got_st = mx.get(name) or {}
+            for fld in ("mean", "max"):
+                g = got_st.get(fld)
+                if not isinstance(g, float) or abs(g - want_st[fld]) > STAT_TOL:
+                    raise Violation(f"metrics.{name}.{fld}={g!r}{tag} but the {len(vals)} returned hits give {want_st[fld]!r}", case, "metrics-" + name)
+        if mx.get("owner_scope") != str(t2cfg.get("owner_scope", "any")).lower():
+            raise Violation(f"metrics.owner_scope={mx.get('owner_scope')!r} for configured scope {t2cfg.get('owner_scope')!r}", case, "metrics-scope")
+
     # ---- slice cap and residual nudges
     cap = case["slice_k"]
     want_used = len(hits) if cap is None else min(len(hits), max(0, int(cap)))
     if m.get("k_used") != want_used:
         raise Violation(f"k_used={m.get('k_used')} with {len(hits)} hits and slice cap {cap}", case, "k-used")
     rcap = int(t2cfg.get("residual_cap_per_turn", 32))
+    if (m.get("caps") or {}).get("residual_cap") != rcap:
+        raise Violation(f"metrics.caps={m.get('caps')!r} but the residual cap is {rcap}", case, "metrics-caps")
     resid = res.graph_deltas_residual
     rids = [d.get("id") for d in resid]
     if any(set(d) != {"op", "id"} or d["op"] != "upsert_node" for d in resid):
@@ -274,7 +642,7 @@ def check_case(case, rec=None):
         raise Violation(f"{len(rids)} residual nudges exceed residual cap {rcap}", case, "residual-cap")
     if m.get("k_residual") != len(rids):
         raise Violation("k_residual does not match the residual list", case, "k-residual")
-    used_texts = [(h.text or "").lower() for h in hits[:want_used]]
+    used_texts = [str(by_id[str(h.id)].get("text", "")).lower() for h in hits[:want_used]]
     node_labels = {}
     for spec in case["graphs"].values():
         for n in spec["nodes"]:
@@ -291,33 +659,78 @@ def check_case(case, rec=None):
     if rec is not None:
         owners = {e.get("owner") for e in case["eps"]}
         foreign_would_rank = False
-        if owner is not None and len(owners) >= 2:
-            Rany = ref.Ref(case["eps"], qvec, t2cfg, world.NOW_ISO, None)
+        if owner is not None and len(owners) >= 2 and not reader:
+            Rany = RefX(case["eps"], qvec, t2cfg, now_iso, None)
             anyres = [i for i, _, _ in Rany.result()]
             foreign_would_rank = any(by_id[i].get("owner") != owner for i in anyres)
+        elif owner is not None and reader:
+            foreign_would_rank = any(e.get("owner") != owner and e.get("vec_full") is not None for e in case["eps"])
         eligible = len({e["id"] for e in R.vis if e.get("vec_full") is not None and R.score(e) >= thr})
         truncates = eligible > k and len(hits) == k
         nt = foreign_would_rank or truncates or reordered
-        labels = [f"scope={str(t2cfg.get('owner_scope')).lower()}", f"layers={case['layers']}", "path=" + ("sharded" if case.get("workers") else "sequential")] + \
-                 (["well_separated"] if well_separated else ["ambiguous"]) + (["foreign_would_rank"] if foreign_would_rank else []) + \
+        path = "reader" if reader else ("sharded" if case.get("workers") else "sequential")
+        scope = str(t2cfg.get("owner_scope")).lower()
+        spell = [_ts_kind(e.get("ts")) for e in case["eps"]]
+        labels = [f"scope={scope}", f"layers={case['layers']}", "path=" + path] + \
+                 ([] if reader else (["well_separated"] if well_separated else ["ambiguous"])) + (["foreign_would_rank"] if foreign_would_rank else []) + \
                  (["truncates"] if truncates else []) + (["reordered"] if reordered else []) + (["hits>0"] if hits else []) + \
-                 (["residual>0"] if rids else [])
+                 (["hits>=2"] if len(hits) >= 2 else []) + (["hits>=4"] if len(hits) >= 4 else []) + \
+                 (["residual>0"] if rids else []) + (["residual=cap"] if rids and len(rids) == rcap else []) + \
+                 (["used<returned"] if want_used < len(hits) else []) + \
+                 (["big_memory"] if len(case["eps"]) >= 70 else []) + (["hits>64"] if len(hits) > 64 else []) + (["hits>128"] if len(hits) > 128 else []) + \
+                 (["dup_ids_in_index"] if len(by_id) < len(case["eps"]) else []) + \
+                 (["gate=on"] if case.get("gate") else []) + (["alias"] if case.get("alias") is not None else []) + \
+                 ([f"agent={case['agent']!r}"] if case["agent"] in ("", "a") and scope == "agent" else []) + \
+                 (["days=overflow"] if int(t2cfg.get("exact_recent_days", 30)) >= 800000 and "exact_semantic" in R.tiers else []) + \
+                 (["tiers=dup_or_empty"] if len(set(R.tiers)) != len(R.tiers) or not R.tiers else []) + \
+                 (["now!=default"] if now_iso != world.NOW_ISO else []) + \
+                 (["neg_cos_hit"] if any(float(h.score) < 0 for h in hits) else []) + \
+                 [f"ts={kd}" for kd in sorted(set(spell)) if kd not in ("z", "utc")] + \
+                 (["vec_store=" + str(case.get("vec_store"))] if case.get("vec_store") not in (None, "f32") else []) + \
+                 (["hits>k_max"] if case["layers"] in ("hybrid", "all") and len(hits) > int(t2cfg["hybrid"]["k_max"]) else []) + \
+                 (["hybrid_fired"] if m.get("hybrid_used") else []) + \
+                 (["hybrid_fired&tail"] if m.get("hybrid_used") and len(hits) > int(t2cfg["hybrid"]["k_max"]) else [])
         rec.case(nontrivial=nt, dig=digest(case) if nt else None, labels=labels,
                  sample={"query": q_text, "agent": case["agent"], "t2": case["t2"],
                          "episodes": [(e["id"], e.get("owner"), e.get("text"), e.get("ts")) for e in case["eps"]][:8],
                          "retrieved": [(h.id, round(float(h.score), 6)) for h in hits], "residual": rids} if nt else None)
 
 
+def _ts_kind(ts):
+    if not ts:
+        return "missing"
+    if ts.endswith("Z"):
+        return "frac" if "." in ts else "z"
+    if len(ts) == 10:
+        return "date"
+    if ts.endswith("+00:00"):
+        return "space" if " " in ts else "utc"
+    if " " in ts:
+        return "space"
+    if "+" in ts[10:] or "-" in ts[10:]:
+        return "offset"
+    return "naive"
+
+
 def sub_retrieval(rec, seed, shard, nshards, n=400, shrink=True):
     run_hypothesis(rec, seed, cases(), lambda c: check_case(c, rec), max_examples=n, shrink=shrink, name="retrieval")
 
 
+def _fix_floats(x):
+    if isinstance(x, dict):
+        if set(x) == {"__float__"}:
+            return float(x["__float__"])
+        return {k: _fix_floats(v) for k, v in x.items()}
+    if isinstance(x, list):
+        return [_fix_floats(v) for v in x]
+    return x
+
+
 def replay_case(case):
-    from checks.c03 import _fix_floats
     check_case(_fix_floats(case), None)
 
 
 SUBCHECKS = [
-    Sub("retrieval", sub_retrieval, quick={"n": 300}, thorough={"n": 5000}, shards_quick=8, shards_thorough=16,
+    Sub("retrieval", sub_retrieval, quick={"n": 250}, thorough={"n": 5000}, shards_quick=8, shards_thorough=16,
         replay=replay_case),
 ]
